@@ -37,7 +37,7 @@ def confirm(name, patch, demo):
         if rc != 0:
             res["apply_error"] = o[-300:]
             return res
-        rc, o = sh("/tmp/mut4/run_tests.sh %s" % wt, timeout=1800)
+        rc, o = sh("%s/run_tests.sh %s" % (MUT_DIR, wt), timeout=1800)
         res["unit_tests_pass"] = "All tests passed" in o
         res["unit_tests_tail"] = o[-200:]
         rc, o = sh("g++ -std=c++17 -O1 -I%s/include %s -o %s/demo_changed -pthread" % (wt, demo, wt), timeout=600)
@@ -189,7 +189,7 @@ def main():
         shutil.copy(patch, os.path.join(dest, "patch.diff"))
         shutil.copy(demo, os.path.join(dest, "demo.cpp"))
         result["what_it_needs"] = open(meta).read()[:3000] if os.path.exists(meta) else ""
-        result["ran"] = ["git worktree add; git apply patch.diff; /tmp/mut4/run_tests.sh (unit tests)", "g++ demo.cpp on pristine / changed tree",
+        result["ran"] = ["git worktree add; git apply patch.diff; run_tests.sh (unit tests)", "g++ demo.cpp on pristine / changed tree",
                          "tools/try_seeded.py patch.diff (git -C /repo apply; ./check C01..C20; git -C /repo checkout -- .)"]
         json.dump(result, open(os.path.join(dest, "meta.json"), "w"), indent=1)
         print("%s confirmed=%s caught_by=%s (%.0fs)" % (name, ok, result.get("caught_by"), time.time() - t0), flush=True)
